@@ -43,11 +43,15 @@ def one_case(ctx, res, stream, cfg, texts, use_stdin=False, check_idem=True, as_
                 f.write(t)
             argv.append(p)
     stdin_text = None
+    stdin_at = None
     if use_stdin:
-        stdin_text = texts[-1 if as_filter else dash_at].replace("\r\n", "\n").replace("\r", "\n")
+        # standard input is handed over as it is: on POSIX Python does not translate its newlines (only LF ends a line there, a CR is
+        # an ordinary character) — the model knows which source is standard input
+        stdin_at = (len(texts) - 1) if as_filter else dash_at
+        stdin_text = texts[stdin_at]
     status, out = run_cli(NumberLineCli().run, argv, stdin_text=stdin_text)
-    req = " ".join(cps(t) for t in texts)
-    m, s = drv([f"nl {start} {incr} {width} {req}", f"spec.nl {start} {incr} {width} {req}"])
+    req = " ".join(("1 " if k == stdin_at else "0 ") + cps(t) for k, t in enumerate(texts))
+    m, s = drv([f"nl2 {start} {incr} {width} {req}", f"spec.nl2 {start} {incr} {width} {req}"])
     mo, so = model_out(m), model_out(s)
     case = {"start": start, "incr": incr, "width": width, "texts": texts, "stdin": use_stdin, "filter": as_filter}
     nontrivial = any(l[:1].isdigit() for t in texts for l in t.splitlines()) and any(not l[:1].isdigit() for t in texts for l in t.splitlines())
@@ -69,7 +73,12 @@ def one_case(ctx, res, stream, cfg, texts, use_stdin=False, check_idem=True, as_
         with open(p, "w", newline="") as f:
             f.write(out)
         cfg2 = (ctx.rng.choice([1, 5, 10, 77]), ctx.rng.choice([1, 3, 10]), ctx.rng.choice([0, 3, 9]))
-        status2, out2 = run_cli(NumberLineCli().run, ["-v", str(cfg2[0]), "-i", str(cfg2[1]), "-w", str(cfg2[2]), p])
+        if use_stdin and "\r" in out:
+            # a CR that came through standard input is an ordinary character of its line (S4: the two Python streams treat CR differently);
+            # the numbered output is given back the way the text came, so that its lines are the same lines
+            status2, out2 = run_cli(NumberLineCli().run, ["-v", str(cfg2[0]), "-i", str(cfg2[1]), "-w", str(cfg2[2])], stdin_text=out)
+        else:
+            status2, out2 = run_cli(NumberLineCli().run, ["-v", str(cfg2[0]), "-i", str(cfg2[1]), "-w", str(cfg2[2]), p])
         if status2 != "ok0" or out2 != out:
             res.violate(stream, "renumbering a numbered output changed it", case, {"once": out, "twice": out2, "cfg2": cfg2}, {"clause": "idempotent"})
     if len(texts) > 1 and not use_stdin and all(t == "" or t.endswith("\n") for t in texts[:-1]):
@@ -120,6 +129,19 @@ def run(ctx, res):
         one_case(ctx, res, "random", cfg, texts, use_stdin=r < 0.25, as_filter=0.25 <= r < 0.4)
         if i == 3:
             res.sample({"cfg": cfg, "texts": texts})
+    # a real process fed through a pipe: CR LF and lone CR on standard input are not translated (checked against the model of stdin sources)
+    import subprocess
+    import proc as P
+    from common import PY
+    raw = "a\r\nb\rc\n7 d\r\ne\r\n"
+    for argv in ([], ["-"]):
+        pr = subprocess.run([PY, "-B", "-m", "moto_nl"] + argv, input=raw.encode(), capture_output=True, env=P.env(), timeout=300)
+        want = model_out(drv([f"nl2 10 10 0 1 {cps(raw)}"])[0])
+        stp = res.stream("process_stdin")
+        stp.see(("nl", tuple(argv)), nontrivial=True)
+        stp.compared += 1
+        if pr.returncode != 0 or pr.stdout.decode() != want:
+            res.disagree("process_stdin", {"tool": "moto_nl", "argv": argv, "stdin": raw}, want, [pr.returncode, pr.stdout.decode()])
     # big files: thousands of lines, tens of kilobytes (a reader with a size limit or a buffer would drop or cut lines)
     for nlines, cfg in ((1000, (10, 10, 0)), (2500, (1, 1, 5)), (6000, (100, 5, 0))) if not ctx.thorough else ((1000, (10, 10, 0)), (2500, (1, 1, 5)), (6000, (100, 5, 0)), (40000, (1, 1, 0))):
         big = "".join(("%d REM already numbered %d\n" % (7 * k, k)) if k % 5 == 0 else ("PRINT \"LINE %d\";X%d:GOTO %d\n" % (k, k % 97, k)) for k in range(1, nlines + 1))
